@@ -344,3 +344,147 @@ func verifControlTerminalRelease[T any]() func(Observable[T]) Observable[T] {
 	}
 }
 `
+
+// externalPairs: acquisitions of resources that live outside the library and the call that gives them back.
+// Each line was confirmed against the documentation of the package it names.
+var externalPairs = []struct {
+	pkg, acquire string // function called in the subscribe closure
+	release      string // function (same package, same first argument) or method (on the acquired object) the teardown calls
+	method       bool
+	why          string
+}{
+	{"os/signal", "Notify", "Stop", false, "signal.Notify registers the channel with the runtime until signal.Stop(ch): without it the process-wide handler keeps the channel (and sends into it after the teardown closed it: panic)"},
+	{"github.com/fsnotify/fsnotify", "NewWatcher", "Close", true, "an fsnotify watcher holds an inotify descriptor and a goroutine until Close"},
+	{"os", "Open", "Close", true, "an *os.File holds a descriptor until Close"},
+	{"net", "Listen", "Close", true, "a listener holds a socket until Close"},
+	{"time", "NewTicker", "Stop", true, "a ticker keeps firing until Stop"},
+}
+
+// EXTERNAL-ACQUIRE-RELEASED: what the subscribe closure takes from the operating system, the teardown gives back.
+func ruleExternalAcquireReleased() check.Rule {
+	return check.Rule{
+		Name:        "EXTERNAL-ACQUIRE-RELEASED",
+		NeedControl: true,
+		Doc:         "for the listed acquire/release pairs of packages outside the library (signal.Notify/Stop, fsnotify.NewWatcher/Close, os.Open/Close, net.Listen/Close, time.NewTicker/Stop): an acquisition made in the body of a subscribe closure (not in a callback that releases it itself through defer) has its release call — same channel argument, or method on the acquired object — inside a teardown the closure returns or registers",
+		Run: func(c *check.Ctx) {
+			m := c.M
+			n := 0
+			for _, sc := range m.SCs {
+				armed := c.Armed(sc)
+				info := sc.Pkg.TypesInfo
+				// teardown code: returned literals and literals registered with Add
+				var tds []*ast.FuncLit
+				for _, tr := range sc.Teardowns {
+					if tr.Val != nil && tr.Val.Lit != nil {
+						tds = append(tds, tr.Val.Lit)
+					}
+				}
+				for _, op := range sc.SubOps {
+					if op.Method == "Add" && op.ArgExpr != nil {
+						if l, ok := ast.Unparen(op.ArgExpr).(*ast.FuncLit); ok {
+							tds = append(tds, l)
+						}
+					}
+				}
+				ast.Inspect(sc.Lit.Body, func(x ast.Node) bool {
+					call, ok := x.(*ast.CallExpr)
+					if !ok {
+						return true
+					}
+					cl := model.Callee(info, call)
+					if cl == nil || cl.Pkg() == nil {
+						return true
+					}
+					for _, pr := range externalPairs {
+						if cl.Pkg().Path() != pr.pkg || cl.Name() != pr.acquire {
+							continue
+						}
+						// the acquired object / the registered channel
+						var obj types.Object
+						if pr.method {
+							if as, ok := m.Parent(sc.Pkg, call).(*ast.AssignStmt); ok && len(as.Lhs) >= 1 {
+								if id, ok := as.Lhs[0].(*ast.Ident); ok {
+									obj = objOf(info, id)
+								}
+							}
+						} else if len(call.Args) > 0 {
+							if id, ok := ast.Unparen(call.Args[0]).(*ast.Ident); ok {
+								obj = objOf(info, id)
+							}
+						}
+						if obj == nil {
+							continue
+						}
+						n++
+						key := fmt.Sprintf("%s/%s.%s-%s/released", sc, cl.Pkg().Name(), pr.acquire, obj.Name())
+						released := false
+						// a deferred release in the same function as the acquisition (synchronous use)
+						var scopes []ast.Node
+						for _, l := range tds {
+							scopes = append(scopes, l)
+						}
+						if fn := innermostFunc(m, sc.Pkg, call); fn != nil {
+							ast.Inspect(fn, func(y ast.Node) bool {
+								if d, ok := y.(*ast.DeferStmt); ok {
+									scopes = append(scopes, d)
+								}
+								return true
+							})
+						}
+						for _, scope := range scopes {
+							ast.Inspect(scope, func(y ast.Node) bool {
+								c2, ok := y.(*ast.CallExpr)
+								if !ok {
+									return true
+								}
+								if pr.method {
+									if sel, ok := ast.Unparen(c2.Fun).(*ast.SelectorExpr); ok && sel.Sel.Name == pr.release {
+										if id, ok := ast.Unparen(sel.X).(*ast.Ident); ok && objOf(info, id) == obj {
+											released = true
+										}
+									}
+								} else if cl2 := model.Callee(info, c2); cl2 != nil && cl2.Pkg() != nil && cl2.Pkg().Path() == pr.pkg && cl2.Name() == pr.release && len(c2.Args) > 0 {
+									if id, ok := ast.Unparen(c2.Args[0]).(*ast.Ident); ok && objOf(info, id) == obj {
+										released = true
+									}
+								}
+								return true
+							})
+						}
+						if released {
+							if armed {
+								c.OK(key, call.Pos(), "given back by the teardown (%s)", pr.release)
+							}
+						} else {
+							c.Report(armed, key, call.Pos(), "%s.%s is never followed by %s in a teardown of this subscribe closure: %s", cl.Pkg().Name(), pr.acquire, pr.release, pr.why)
+						}
+					}
+					return true
+				})
+			}
+			c.Inc("external_acquisitions", n)
+		},
+	}
+}
+
+const controlsExternalAcquire = `
+func verifControlTickerLeak() Observable[int64] {
+	return NewObservableWithContext(func(ctx context.Context, destination Observer[int64]) Teardown {
+		ticker := time.NewTicker(time.Second)
+		done := make(chan struct{})
+		go func() {
+			for {
+				select {
+				case <-done:
+					return
+				case <-ticker.C:
+					destination.NextWithContext(ctx, 0)
+				}
+			}
+		}()
+		return func() {
+			close(done)
+		}
+	})
+}
+`
